@@ -386,9 +386,14 @@ int muggle_str_toul(const char *str, unsigned long *pval, int base)
 		}
 	}
 
-	if (*pval == ULONG_MAX)
+	if (*pval == ULONG_MAX && errno == ERANGE)
 	{
 		// out of range
+		return 0;
+	}
+	if (*pval != 0 && str[muggle_str_lstrip_idx(str)] == '-')
+	{
+		// negative integer
 		return 0;
 	}
 
@@ -452,9 +457,14 @@ int muggle_str_toull(const char *str, unsigned long long *pval, int base)
 		}
 	}
 
-	if (*pval == ULLONG_MAX)
+	if (*pval == ULLONG_MAX && errno == ERANGE)
 	{
 		// out of range
+		return 0;
+	}
+	if (*pval != 0 && str[muggle_str_lstrip_idx(str)] == '-')
+	{
+		// negative integer
 		return 0;
 	}
 
